@@ -9,15 +9,30 @@ namespace Driver.Tree
 /-- the comparators the harness can install (proved total preorders: `harnessCmp_ok`) -/
 def cmpOf (mode : Nat) : Bytes → Bytes → Ordering := harnessCmp mode
 
+/-- a stored value as the C node holds it: a byte string, or a NULL data pointer together with a
+    non-zero `datasize` (`put(tbl, key, NULL, n)` is accepted and stored like that; `qmemdup` of it
+    is NULL without an allocation, exactly like an empty value) -/
+inductive Val where
+  | b (x : Bytes)
+  | nul (n : Nat)
+
+def Val.isEmpty : Val → Bool
+  | .b x => x.isEmpty
+  | .nul _ => true
+
+def vx : Val → String
+  | .b x => hx x
+  | .nul n => s!"N{n}"
+
 structure St where
-  tbl : Tbl Bytes Bytes := Tbl.init
+  tbl : Tbl Bytes Val := Tbl.init
   cur : Cur := {}
   mode : Nat := 0
   dead : Option Fault := none     -- the C side would have crashed
   quiet : Bool := false
   armed : Option (Nat × Bool) := none   -- `fault k` / `faultfrom k`: applies to the next library call
 
-abbrev E := Entry Bytes Bytes
+abbrev E := Entry Bytes Val
 
 def nextStr (root : T E) (n : Option Nat) : String :=
   match n with
@@ -29,21 +44,21 @@ def nextStr (root : T E) (n : Option Nat) : String :=
 partial def shape (root : T E) : T E → String
   | .nil => "."
   | .node l a c r =>
-    "(" ++ shape root l ++ " " ++ hx a.key ++ "=" ++ hx a.val ++ (if c then " r " else " b ")
+    "(" ++ shape root l ++ " " ++ hx a.key ++ "=" ++ vx a.val ++ (if c then " r " else " b ")
       ++ toString a.tid.toNat ++ " " ++ nextStr root a.next ++ " " ++ shape root r ++ ")"
 
-def stateStrQ (q : Bool) (s : Tbl Bytes Bytes) : String :=
-  s!"num={s.num} tid={s.tid.toNat} chk={s.root.check} live={s.live (·.isEmpty)} " ++ (if q then "-" else shape s.root s.root)
+def stateStrQ (q : Bool) (s : Tbl Bytes Val) : String :=
+  s!"num={s.num} tid={s.tid.toNat} chk={s.root.check} live={s.live Val.isEmpty} " ++ (if q then "-" else shape s.root s.root)
 
 def curStr (root : T E) (c : Cur) : String := s!"cur={c.tid.toNat},{nextStr root c.next}"
 
-partial def walkAll (s : Tbl Bytes Bytes) (cur : Cur) (acc : List String) (fuel : Nat) :
-    Except Fault (Tbl Bytes Bytes × List String) :=
+partial def walkAll (s : Tbl Bytes Val) (cur : Cur) (acc : List String) (fuel : Nat) :
+    Except Fault (Tbl Bytes Val × List String) :=
   if fuel == 0 then .error .outOfFuel else
   match s.getnext cur with
   | .error f => .error f
   | .ok (s', .done) => .ok (s', acc.reverse)
-  | .ok (s', .item k v c) => walkAll s' c ((hx k ++ "=" ++ hx v) :: acc) (fuel - 1)
+  | .ok (s', .item k v c) => walkAll s' c ((hx k ++ "=" ++ vx v) :: acc) (fuel - 1)
 
 def planOf (a : Option (Nat × Bool)) : Plan :=
   match a with
@@ -59,7 +74,7 @@ def step (st0 : St) (ws : List String) : St × String :=
   let plan := planOf st0.armed
   let st := { st0 with armed := none }          -- the window of one call
   let fail (f : Fault) : St × String := ({ st with dead := some f }, faultStr f)
-  let ie : Bytes → Bool := (·.isEmpty)
+  let ie : Val → Bool := Val.isEmpty
   match ws with
   | ["fault", k] => ({ st0 with armed := some (k.toNat!, false) }, "ok")
   | ["faultfrom", k] => ({ st0 with armed := some (k.toNat!, true) }, "ok")
@@ -72,7 +87,14 @@ def step (st0 : St) (ws : List String) : St × String :=
   | ["put", k, v] =>
     match arg k, arg v with
     | .ok k, .ok v =>
-      match st.tbl.putobjF cmp ie plan k v with
+      match st.tbl.putobjF cmp ie plan k (.b v) with
+      | .ok (t, r, n) => ({ st with tbl := t }, s!"allocs={n} {r} " ++ stateStr t)
+      | .error f => fail f
+    | _, _ => (st, "bad-op")
+  | ["putnull", k, n] =>
+    match arg k, n.toNat? with
+    | .ok k, some n =>
+      match st.tbl.putobjF cmp ie plan k (if n == 0 then .b [] else .nul n) with
       | .ok (t, r, n) => ({ st with tbl := t }, s!"allocs={n} {r} " ++ stateStr t)
       | .error f => fail f
     | _, _ => (st, "bad-op")
@@ -81,7 +103,7 @@ def step (st0 : St) (ws : List String) : St × String :=
     | .ok k =>
       let (v, n) := st.tbl.getobjF cmp ie plan k
       let r := match v with
-        | some v => "data " ++ hx v
+        | some v => "data " ++ vx v
         | none => "null"
       (st, s!"allocs={n} {r} cost={st.tbl.getCost cmp k}")
     | _ => (st, "bad-op")
@@ -106,7 +128,7 @@ def step (st0 : St) (ws : List String) : St × String :=
     | .ok (t, .done, n) => ({ st with tbl := t }, s!"allocs={n} done " ++ stateStr t)
     | .ok (t, .enomem, n) => ({ st with tbl := t }, s!"allocs={n} enomem " ++ stateStr t)
     | .ok (t, .item k v c, n) =>
-      ({ st with tbl := t, cur := c }, s!"allocs={n} item {hx k}={hx v} {curStr t.root c} " ++ stateStr t)
+      ({ st with tbl := t, cur := c }, s!"allocs={n} item {hx k}={vx v} {curStr t.root c} " ++ stateStr t)
     | .error f => fail f
   | ["walk"] =>
     match walkAll st.tbl {} [] (st.tbl.num + 3) with
@@ -119,7 +141,7 @@ def step (st0 : St) (ws : List String) : St × String :=
       | .ok (t, some none, n) => ({ st with tbl := t }, s!"allocs={n} ENOENT " ++ stateStr t)
       | .ok (t, none, n) => ({ st with tbl := t }, s!"allocs={n} ENOMEM " ++ stateStr t)
       | .ok (t, some (some (k', v, c)), n) =>
-        ({ st with tbl := t, cur := c }, s!"allocs={n} found {hx k'}={hx v} {curStr t.root c} " ++ stateStr t)
+        ({ st with tbl := t, cur := c }, s!"allocs={n} found {hx k'}={vx v} {curStr t.root c} " ++ stateStr t)
       | .error f => fail f
     | _ => (st, "bad-op")
   | _ => (st0, "bad-op")
